@@ -33,6 +33,13 @@ Theorem reduce_is_spec : forall f l init,
 Proof. exact reduce_is_spec_l. Qed.
 Print Assumptions reduce_is_spec.
 
+(* "for every receiver" includes receivers reached by earlier calls: a sequence of documented calls
+   on one receiver object behaves as the fold of the documented single calls — each call sees
+   exactly the contents the previous one left and nothing else of the receiver's history *)
+Theorem seq_is_spec : forall ss l ps, spec_seq l ss = Some ps -> run_seq l ss = ps.
+Proof. exact seq_is_spec_l. Qed.
+Print Assumptions seq_is_spec.
+
 (* sort(): the result (= the receiver afterwards) is ascending by text, a permutation of the
    receiver, and stable (elements with equal text keep their order) *)
 Theorem sort_sorted : forall l, sorted_by_text (ssort l).
